@@ -1,4 +1,5 @@
 import OpcuaModel.Model.ClientResp
+import OpcuaModel.Model.ClientRespRepairs
 import OpcuaModel.Gen.ClientSites
 /-
   C21 — client calls never panic on any well-formed server response.
@@ -47,10 +48,10 @@ theorem C21_panic_iff_sig (op : Op) (s : Shape) : outcome op s = .panic ↔ (sig
       rcases v with ⟨p, t, a, n⟩
       cases p <;> cases a <;> cases t <;> simp [variantInt] <;> omega
   | namespaceArray =>
-    simp only [outcome, sigOf, getter, valFrom]
+    simp only [outcome, sigOf, getter]
     cases nodeAttr s with
     | none => simp
-    | some v => rcases v with ⟨p, t, a, n⟩; cases p <;> cases a <;> cases t <;> simp
+    | some v => rcases v with ⟨p, t, a, n⟩; cases a <;> cases t <;> simp
   | browseName =>
     simp only [outcome, sigOf, sigOf.typedSig, getter, valFrom]
     cases nodeAttr s with
@@ -136,15 +137,14 @@ theorem C21_nopanic_conforming (op : Op) (s : Shape) (h : conforming op s) : out
     simp only [hk, sendOk]
     cases hr : s.results with
     | nil => exact absurd hr hres
-    | cons st rest => cases st <;> simp
+    | cons st rest => cases st <;> simp [decodedVal, hv]
   cases op <;> simp only [sigOf, sigOf.typedSig, valFrom, hk, sendOk] <;> (try simp) <;> (try omega)
-  case nodeClass => rcases hattr with h | h <;> simp [h, hv, hs]
-  case namespaceArray => rcases hattr with h | h <;> simp [h, hv]
-  case browseName => rcases hattr with h | h <;> simp [h, hv, hs, ht .qname rfl]
-  case description => rcases hattr with h | h <;> simp [h, hv, hs, ht .ltext rfl]
-  case displayName => rcases hattr with h | h <;> simp [h, hv, hs, ht .ltext rfl]
-  case accessLevel => rcases hattr with h | h <;> simp [h, hv, hs, ht .byte rfl]
-  case userAccessLevel => rcases hattr with h | h <;> simp [h, hv, hs, ht .byte rfl]
+  case nodeClass => rcases hattr with h | h <;> simp [h, hs]
+  case browseName => rcases hattr with h | h <;> simp [h, hs, ht .qname rfl]
+  case description => rcases hattr with h | h <;> simp [h, hs, ht .ltext rfl]
+  case displayName => rcases hattr with h | h <;> simp [h, hs, ht .ltext rfl]
+  case accessLevel => rcases hattr with h | h <;> simp [h, hs, ht .byte rfl]
+  case userAccessLevel => rcases hattr with h | h <;> simp [h, hs, ht .byte rfl]
   case references =>
     have := browseLoop_ne_panic s.chain hc
     simp [this]; omega
@@ -152,6 +152,30 @@ theorem C21_nopanic_conforming (op : Op) (s : Shape) (h : conforming op s) : out
     have : List.drop s.nReq s.results = [] := by
       apply List.drop_eq_nil_of_le; simp [Shape.nRes] at hn; omega
     simp [this]
+
+/-- every signature `sigOf` can produce is in the list of recorded signatures -/
+theorem C21_sigs_listed (op : Op) (s : Shape) (sig : String) (h : sigOf op s = some sig) : sig ∈ allSigs := by
+  cases op <;> simp only [sigOf, sigOf.typedSig, valFrom] at h <;> (try cases h) <;>
+    (repeat' split at h) <;> (try cases h) <;> simp [allSigs] <;> (try simp_all)
+
+/-- once every recorded defect is repaired (error instead of panic), no
+    operation panics on any shape: the 13 signatures are all there is -/
+theorem C21_nopanic_when_repaired (R : List String) (hR : ∀ sig ∈ allSigs, sig ∈ R) (op : Op) (s : Shape) :
+    outcomeR R op s ≠ .panic := by
+  unfold outcomeR
+  cases h : sigOf op s with
+  | none => exact C21_nopanic_partial op s h
+  | some sig =>
+    have : R.contains sig = true := by simpa using hR sig (C21_sigs_listed op s sig h)
+    simp only [this, if_true]
+    split <;> simp
+
+/-- the repairs recorded for the working tree are recorded signatures, and the
+    model with those repairs agrees with the unrepaired one elsewhere -/
+theorem C21_repairs_sound : (∀ r ∈ repairedSigs, r ∈ allSigs) ∧
+    ∀ op s, sigOf op s = none → outcomeR repairedSigs op s = outcome op s := by
+  refine ⟨by decide, ?_⟩
+  intro op s h; simp [outcomeR, h]
 
 /-- C21 as stated is false on the unchanged tree -/
 theorem C21_nopanic_fails : ¬ ∀ (op : Op) (s : Shape), outcome op s ≠ .panic := by
@@ -188,9 +212,14 @@ theorem C21_finding_type_assertions :
     sigOf .displayName (witness .displayName) = some "C21.displayname-type-assertion" ∧
     sigOf .accessLevel (witness .accessLevel) = some "C21.accesslevel-type-assertion" ∧
     sigOf .userAccessLevel (witness .userAccessLevel) = some "C21.useraccesslevel-type-assertion" := by decide
-theorem C21_finding_nil_variant :
-    (∀ op ∈ [Op.namespaceArray, .nodeClass, .browseName, .description, .displayName, .accessLevel, .userAccessLevel],
-      outcome op (witness .namespaceArray) = .panic ∧ sigOf op (witness .namespaceArray) = some "C21.nil-variant") := by
+/-- a DataValue without a Variant decodes to the Null variant: the typed
+    getters panic on it as on any other unexpected type, NodeClass and
+    NamespaceArray do not -/
+theorem C21_absent_value_is_null :
+    (∀ op ∈ [Op.browseName, .description, .displayName, .accessLevel, .userAccessLevel],
+      outcome op { Shape.good with val := ⟨false, .int32, false, 0⟩ } = .panic) ∧
+    outcome .nodeClass { Shape.good with val := ⟨false, .int32, false, 0⟩ } = .value ∧
+    outcome .namespaceArray { Shape.good with val := ⟨false, .int32, false, 0⟩ } = .error := by
   decide
 theorem C21_finding_nodeclass_empty_int_array :
     outcome .nodeClass (witness .nodeClass) = .panic ∧
